@@ -4,6 +4,7 @@
    panic outcome at all (their guards are part of Model/Builtins.v and are compared with the code
    by the correspondence run on boundary counts and wrong-kind arguments).
    The hypothesis wf_program is extracted and evaluated on every program the parser returns. *)
+From Coq Require Import String.
 From TW Require Import Bytes Values Ast Builtins Eval Wf NoPanic.
 
 Theorem C09_render_never_panics cx p data :
